@@ -118,10 +118,12 @@ fn dst_history(
         suffix: sc.suffix.clone(),
         naming: sc.naming.clone(),
     };
+    let mut preplaced_name: Option<String> = None;
     if let (Some(naive), Some(fmt)) = (preplaced_naive, names.naming.ts_fmt()) {
         let _ = std::fs::create_dir_all(dir);
         let infix = naive.format(fmt).to_string();
         std::fs::write(names.path(&infix), b"from an earlier life\n").map_err(|e| e.to_string())?;
+        preplaced_name = Some(names.compose(&infix));
     }
     let mut seq = 0u64;
     for run in 0..3 {
@@ -153,6 +155,33 @@ fn dst_history(
             for _ in 0..sc.writes[2 * run + 1] {
                 d.write(log::Level::Info, &flw::msg_id(0, 0, seq, 6));
                 seq += 1;
+            }
+        }
+        if run == 2 {
+            // the listing (everything incl. the current file) against the directory itself
+            d.flush();
+            let mut sel = flexi_logger::LogfileSelector::default().with_r_current().with_compressed_files();
+            if let Some(c) = names.naming.current_infix() {
+                sel = sel.with_custom_current(c);
+            }
+            let listed: std::collections::BTreeSet<String> = d
+                .existing_log_files(&sel)
+                .map_err(|e| format!("existing_log_files failed: {e}"))?
+                .iter()
+                .filter_map(|p| p.file_name().map(|n| n.to_string_lossy().to_string()))
+                .collect();
+            let there: std::collections::BTreeSet<String> = family::observe(&names)
+                .map_err(|e| e.to_string())?
+                .names()
+                .into_iter()
+                .collect();
+            // (whether a file stamped with a wall-clock time that never existed belongs to the
+            // family is left open: the logger itself cannot have produced it in this configuration)
+            let without = |set: &std::collections::BTreeSet<String>| -> std::collections::BTreeSet<String> {
+                set.iter().filter(|n| Some(*n) != preplaced_name.as_ref()).cloned().collect()
+            };
+            if without(&listed) != without(&there) {
+                return Err(format!("existing_log_files gives {listed:?}, the family in the directory is {there:?}"));
             }
         }
         d.shutdown();
